@@ -138,10 +138,14 @@ func touchesCache(a raceAccess) bool {
 	return false
 }
 
-// cacheRaceScope: both sides are operations of the template-cache packages and
-// at least one is inside the cache implementation itself.
+// cacheRaceScope: both accesses are made by code of the decoder / template-cache
+// packages (ipfix, netflow/v9). In the cache scenario the tasks share nothing
+// but the cache (and what it hands out: a retrieved template still points into
+// arrays the cache owns), the read-only information model and the peer
+// request channel, so any such report is a race between concurrent decoders,
+// dumps or peer lookups.
 func cacheRaceScope(r raceReport) bool {
-	return inCachePkgs(r.A) && inCachePkgs(r.B) && (touchesCache(r.A) || touchesCache(r.B))
+	return inCachePkgs(r.A) && inCachePkgs(r.B)
 }
 
 // pipeRaceScope (C12): both accesses are made by datagram-processing code
